@@ -15,7 +15,6 @@ EXTENDS PongoRender
 
 RECURSIVE Flatten3(_)
 Flatten3(ss) == IF ss = <<>> THEN <<>> ELSE Head(ss) \o Flatten3(Tail(ss))
-SelectSeqIdx(s, Keep(_)) == LET idx == SelectSeq([i \in 1..Len(s) |-> i], Keep) IN [k \in 1..Len(idx) |-> s[idx[k]]]
 NoneB == 999          \* an omitted slice bound
 
 Min2(a, b) == IF a < b THEN a ELSE b
@@ -289,13 +288,5 @@ RemoveTags(s, tg) == TrimR(TrimL(RemoveTag(s, tg)))
 
 \* spaceless (C15): exactly the maximal white-space runs that lie between two complete tags go. A run is between two
 \* tags when it is preceded by '>' that closes a '<' on the same line and followed by '<' that is closed by '>' on its line.
-SpWS(a) == a \in {" ", "NL", "TAB", "CR"}
-Removable(s, i, j) ==       \* s[i..j] is a maximal white-space run
-  /\ i > 1 /\ s[i - 1] = ">"
-  /\ \E p \in 1..(i - 2) : s[p] = "<" /\ \A q \in (p + 1)..(i - 2) : s[q] # "NL"
-  /\ j < Len(s) /\ s[j + 1] = "<"
-  /\ \E p \in (j + 2)..Len(s) : s[p] = ">" /\ \A q \in (j + 2)..(p - 1) : s[q] # "NL"
-MaxRun(s, i, j) == /\ i <= j /\ \A q \in i..j : SpWS(s[q])
-                   /\ (i = 1 \/ ~SpWS(s[i - 1])) /\ (j = Len(s) \/ ~SpWS(s[j + 1]))
-Spaceless(s) == SelectSeqIdx(s, LAMBDA q : ~\E i \in 1..q : \E j \in q..Len(s) : MaxRun(s, i, j) /\ Removable(s, i, j))
+\* (SpWS, Removable, MaxRun, Spaceless: defined in PongoRender, which the spaceless tag uses)
 =============================================================================
